@@ -702,6 +702,16 @@ func (e *bgvEnv) product(level int, batched, isNTT bool) {
 		}
 		prod.IsBatched, prod.IsNTT = batched, isNTT
 		prod.Scale = rlwe.NewScaleModT(ref.MulMod(s1, s2, e.t), e.t)
+		// the scale the library itself attaches to a product of encodings (Scale.Mul, as the evaluators do)
+		{
+			var lib rlwe.Scale
+			if c.Try("C07|rlwe.Scale.Mul", func() { lib = rlwe.NewScaleModT(s1, e.t).Mul(rlwe.NewScaleModT(s2, e.t)) }) {
+				c.Count("bgv_product_scales_checked", 1)
+				c.Check(lib.Cmp(prod.Scale) == 0, "C07|rlwe.Scale.Mul|product-of-encodings-carries-another-scale", func() string {
+					return fmt.Sprintf("t=%d s1=%d s2=%d: Scale.Mul gives %d, s1*s2 mod t = %d", e.t, s1, s2, lib.Uint64(), ref.MulMod(s1, s2, e.t))
+				})
+			}
+		}
 		var want []uint64
 		if batched {
 			want = make([]uint64, e.n)
